@@ -147,7 +147,7 @@ def gen_case(rng):
         else:
             st.append({'k': k, 'ct': rng.choice(CTS)})
     case = {'engine': 'linesim', 'stations': st,
-            'source': {'ct': rng.choice(CTS), 'parts': rng.choice((None, None, 1, 2, 5, 12, 25))},
+            'source': {'ct': rng.choice(CTS), 'parts': rng.choice((None, None, None, None, 1, 1, 2, 2, 5, 5, 12, 12, 25, 25, 0))},
             'sink': {'ct': rng.choice((0, 0, 0.25, 0.5, 1, 2))},
             'horizon': rng.choice((0, 1, 2.5, 5, 10, 20, 50)),
             'tiebreak': core.gen_tiebreak(rng), 'id_offset': rng.choice((0, 0, 5, 1000))}
